@@ -318,7 +318,9 @@ fn ord_mix(family: &'static str, coll: &'static str, vals: &[&'static str], us: 
 pub fn jobs(pn: u32, tier: Tier) -> Vec<Job> {
     let q = tier == Tier::Quick;
     // scale: number of random cases
-    let n = |quick: usize, thorough: usize| if q { quick } else { thorough };
+    // fixed work per tier (never a time limit); VERIF_SCALE multiplies the random-case budgets
+    let scale: usize = std::env::var("VERIF_SCALE").ok().and_then(|s| s.parse().ok()).unwrap_or(8);
+    let n = |quick: usize, thorough: usize| if q { quick * scale } else { thorough * scale / 2 };
     let id: &'static str = Box::leak(crate::run::prop_id(pn).into_boxed_str());
     let mut v = Vec::new();
     match pn {
@@ -499,8 +501,8 @@ pub fn jobs(pn: u32, tier: Tier) -> Vec<Job> {
             v.push(job("seg-exhaustive", random(seg_cases(id, SegMix { w: [34, 30, 14, 1, 6, 8, 6], len: 0..=14, thorough: false, only_small: false }), n(2_400, 60_000)), rule.clone(), &[]));
         }
         19 => {
-            let rule = Rule::all("export of a tree/list holding >=100 entries", &["export_cap_ge_100"]);
-            v.push(job("export-size-ladder", JobKind::Fixed { cases: export_ladder(id, !q), stop_on_first: true }, rule.clone(), &[]));
+            let rule = Rule::all("export of a tree/list physically holding >=12 entries (the size at which the original over-allocation exceeded the bound)", &["export_cap_ge_12"]);
+            v.push(job("export-size-ladder", JobKind::Fixed { cases: export_ladder(id, !q), stop_on_first: true }, rule.clone(), &["export_cap_ge_100"]));
             v.push(job("export-random-tree", random(key_cases(id, key_mix("tree", &[16, 64, 400], 40, 6, [60, 4, 4, 4, 4, 16, 1, 0], 0..=600, Some(0..=30))), n(3_000, 80_000)), rule.clone(), &[]));
             v.push(job("export-random-list", random(key_cases(id, key_mix("list", &[16, 64, 400], 40, 6, [60, 4, 4, 4, 4, 16, 1, 0], 0..=600, Some(0..=30))), n(1_500, 40_000)), rule, &[]));
         }
